@@ -24,8 +24,16 @@ static int unknown, exited, rng_used;
 int verif_fprintf(FILE *f, const char *fmt, ...) { if (fmt[0] == 'U' && fmt[1] == 'n' && fmt[2] == 'k') { unknown = 1; CHECK(0, "no token kind takes the writer's 'Unknown token type' escape"); } return 0; }
 void verif_exit(int c) { exited = 1; CHECK(0, "the writer never ends the host process"); ASSUME(0); }
 static int cur_ty;
-long ran_num_next(void) { rng_used = 1; CHECK(cur_ty == PAIR_ANGLE, "only e-mail autolinks touch the process-global obfuscation generator"); return 0; }
-void ran_start(long s) { rng_used = 1; CHECK(cur_ty == PAIR_ANGLE, "only e-mail autolinks touch the process-global obfuscation generator"); }
+/* C17: the process-global generator of rng.c must not be touched by an export.  Listed finding `email_rng`: the e-mail autolink case does. */
+#ifndef C17_RNG
+#define RNG_OK 1            /* not this harness instance's subject (C02) */
+#elif defined(KF_email_rng)
+#define RNG_OK (cur_ty == PAIR_ANGLE)
+#else
+#define RNG_OK 0
+#endif
+long ran_num_next(void) { rng_used = 1; CHECK(RNG_OK, "no export step reads or writes the process-global obfuscation generator"); return 0; }
+void ran_start(long s) { rng_used = 1; CHECK(RNG_OK, "no export step reads or writes the process-global obfuscation generator"); }
 void TREE1(DString *out, const char *source, token *t, scratch_pad *scratch) {}
 #ifdef TREE2
 void TREE2(DString *out, const char *source, token *t, scratch_pad *scratch) {}
